@@ -10,9 +10,22 @@ import jax.numpy as jnp
 from ..core import obligation
 from ..jxh import Case
 from .. import sym
-from ..sym import Le, Eq, Holds, flat, v_abs, v_lt, v_le, v_and, v_not, v_sub, v_add, v_mul, v_sum, v_eq
+from ..sym import Le, Eq, Holds, flat, v_abs, v_lt, v_and, v_not, v_sub, v_add, v_mul, v_sum, v_eq
 
 P = 'C15'
+
+DESIGNED_NOT_REGISTERED = [
+    ('O5 in its direct form (concrete moduli/triangle, hypotheses r_old = r_new = 0 on the free dofs, goal E_new == E_old as one query)',
+     'not an exact identity of the encoding: with all-concrete geometry and moduli JX folds products of constants (vols*shape values) in '
+     'binary64, differently in the energy and in its gradient; z3 core found an exact-arithmetic model with E_new - E_old = 3/2^56 '
+     '(not reproducible in floats), eqnlsat/nlsat return unknown at 60 s, and with E, rho symbolic-but-pinned all three back ends return '
+     'unknown at 40 s. Replaced by a STRONGER chain: the energy-balance identity with vertices, moduli, density, dt and state all symbolic '
+     '(0-12 free dofs, discharged in 0.1-7 s) + a definition-dropped corollary; concrete triangles/materials are kept as reachability '
+     'witnesses of the hypotheses (solver model replayed on the real code).'),
+    ('uniqueness of the stationary point of the algorithmic energy (strict convexity) for symbolic geometry or moduli',
+     'not in the design; probed: g(d,0)=0 => d=0 is unsat in 15 s only with concrete triangle AND moduli (z3 core), unknown at 40 s otherwise; '
+     'O4 proves KE positive definite, SE >= 0 is the material property C08'),
+]
 
 REF = [[0.0, 0.0], [1.0, 0.0], [0.0, 1.0]]
 # concrete triangles for O5 (dyadic coordinates keep the rationals short): reference + two distorted
@@ -42,16 +55,24 @@ def _mods():
 class Setup:
     """parent element, quadrature rule and shape tables (ground data of the real code), one element"""
 
-    def __init__(self, qdeg=2):
+    def __init__(self, qdeg=2, degree=1):
         Mechanics, FunctionSpace, Interpolants, QuadratureRule, Mesh, LinearElastic = _mods()
-        self.pe, self.pe1 = Interpolants.make_parent_elements(1)
+        self.degree = degree
+        self.pe, self.pe1 = Interpolants.make_parent_elements(degree)
         self.qr = QuadratureRule.create_quadrature_rule_on_triangle(qdeg)
         self.shp = Interpolants.compute_shapes(self.pe, self.qr.xigauss)
-        self.conns = jnp.array([[0, 1, 2]])
+        self.nn = int(self.pe.coordinates.shape[0])
+        self.conns = jnp.arange(self.nn)[None, :]
         self.state = jnp.zeros((1, len(self.qr), 0))
+        # straight-sided element: node a sits at xi_a*v0 + eta_a*v1 + (1-xi_a-eta_a)*v2 (v = vertices in parent order)
+        xi = onp.asarray(self.pe.coordinates)
+        self.B = onp.column_stack([xi[:, 0], xi[:, 1], 1.0 - xi[:, 0] - xi[:, 1]])
+        self.Z = onp.zeros((self.nn, 2))
 
-    def fs(self, coords, nodeSets=None):
+    def fs(self, X, nodeSets=None):
+        """X: (3,2) vertex coordinates (nodal coordinates for degree 1)"""
         _, FunctionSpace, _, _, Mesh, _ = _mods()
+        coords = X if self.degree == 1 else jnp.asarray(self.B) @ X
         mesh = Mesh.Mesh(coords, self.conns, None, self.pe, self.pe1, None, nodeSets, None)
         return FunctionSpace.construct_function_space_from_parent_element(mesh, self.shp, self.qr)
 
@@ -66,6 +87,7 @@ def _encoded(h):
     Mechanics, FunctionSpace, _, _, _, LinearElastic = _mods()
     h.encoded(Mechanics.create_dynamics_functions, Mechanics.compute_newmark_lagrangian, Mechanics.kinetic_energy_density,
               Mechanics._compute_kinetic_energy, Mechanics._compute_element_masses, Mechanics._compute_strain_energy,
+              Mechanics._compute_newmark_element_hessians,
               Mechanics.compute_element_stiffness_from_global_fields, Mechanics.plane_strain_gradient_transformation,
               Mechanics.strain_energy_density_to_lagrangian_density,
               FunctionSpace.construct_function_space_from_parent_element, FunctionSpace.map_element_shape_grads,
@@ -94,8 +116,21 @@ def area2(X):
     return v_sub(v_mul(v_sub(X[1, 0], X[0, 0]), v_sub(X[2, 1], X[0, 1])), v_mul(v_sub(X[1, 1], X[0, 1]), v_sub(X[2, 0], X[0, 0])))
 
 
-def _ne0(x):
-    return v_not(v_eq(x, 0.0))
+BOX = 'E > 0, -1 < nu < 1/2, rho > 0, beta > 0, gamma > 0, dt > 0, twice the signed area of the triangle > 0'
+
+
+def _box(i):
+    """the physical parameter box of the property (a superset of the unconditionally stable range 2 beta >= gamma >= 1/2);
+    only the inputs present in the case are constrained"""
+    out = []
+    for k, lo, hi in (('E', 0.0, None), ('nu', -1.0, 0.5), ('rho', 0.0, None), ('beta', 0.0, None), ('gamma', 0.0, None), ('dt', 0.0, None)):
+        if k in i:
+            out.append(v_lt(lo, s0(i[k])))
+            if hi is not None:
+                out.append(v_lt(s0(i[k]), hi))
+    if 'X' in i:
+        out.append(v_lt(0.0, area2(i['X'])))
+    return out
 
 
 def _rand_tri(rng):
@@ -119,8 +154,8 @@ def o1(h):
     S = Setup()
     _encoded(h)
     h.bounds('U, V, A, Unew: all real (3,2) fields (the closures are elementwise in the field, so the shape is immaterial); '
-             'beta, gamma, dt: all reals with beta*dt^2 != 0')
-    h.assume_note('O1: beta*dt*dt != 0 (the only symbolic denominator, in correct)')
+             'beta > 0, gamma > 0, dt > 0: all reals (superset of the unconditionally stable range)')
+    h.assume_note('O1: beta*dt*dt != 0 (the only symbolic denominator, in correct; implied by the box)')
     h.outside('fields of other shapes (elementwise code, not proved separately)')
 
     def f(beta, gamma, U, V, A, Un, dt):
@@ -140,7 +175,7 @@ def o1(h):
         Up, Vp, Vn, An = o
         dt2 = v_mul(dt, dt)
         one_m2b = v_sub(1.0, v_mul(2.0, b))
-        return [], [
+        return _box(i), [
             Eq(Up, add(U, ax(dt, V), ax(v_mul(v_mul(0.5, dt2), one_m2b), A)), name='predictor_displacement'),
             Eq(Vp, add(V, ax(v_mul(dt, v_sub(1.0, g)), A)), name='predictor_velocity'),
             Eq(ax(v_mul(b, dt2), An), sub(Un, Up), name='corrector_acceleration_times_beta_dt2'),
@@ -156,31 +191,53 @@ def o1(h):
 def o2(h):
     """grad_U algorithmic_energy(U, Upred) = grad SE(U) + grad KE(A') with (V', A') = correct(U - Upred, ...) — the real
     closures on a triangle with SYMBOLIC vertices, moduli, density, beta, gamma, dt and fields"""
-    S = Setup()
     _encoded(h)
-    h.bounds('one P1 triangle with symbolic vertices (twice the signed area != 0, both orientations), 3-point rule; '
-             'E, nu, rho, beta, gamma, dt, U, Upred, V, A: all reals subject to nonzero denominators')
-    h.assume_note('O2: symbolic denominators nonzero: 1+nu, 1-2nu, beta*dt^2; Jacobian of the element map non-singular '
+    h.bounds('one triangle with symbolic vertices: P1 with the 3-point rule (quick), additionally straight-sided P2 with the 3-point '
+             'rule (thorough); box: ' + BOX + '; U, Upred, V, A: all reals')
+    h.assume_note('O2: symbolic denominators nonzero: 1+nu, 1-2nu, beta*dt^2 (implied by the box); Jacobian of the element map non-singular '
                   '(jnp solve encoded relationally, hash-consed)')
-    h.outside('meshes of more than one element (energies are sums over elements; assembly is C14), element order > 1, '
-              'non-linear-elastic materials, axisymmetric mode, pressure projection')
+    h.outside('meshes of more than one element (energies are sums over elements; assembly is C14), element order > 2, '
+              'non-linear-elastic materials (note: compute_element_hessians evaluates the strain-energy Hessian at U - Upred, which '
+              'coincides with the Hessian at U only for a quadratic strain energy), axisymmetric mode, pressure projection')
 
-    def f(X, E, nu, rho, beta, gamma, U, Up, Vp, A, dt):
+    def run(S, tag, cap, split):
+        def f(X, E, nu, rho, beta, gamma, U, Up, Vp, A, dt):
+            d = S.dyn(X, E, nu, rho, beta, gamma)
+            gL = jax.grad(d.compute_algorithmic_energy)(U, Up, S.state, dt)
+            gS = jax.grad(lambda u: d.compute_output_strain_energy(u, S.state, dt))(U)
+            Vn, An = d.correct(U - Up, Vp, A, dt)
+            MA = jax.grad(d.compute_output_kinetic_energy)(An)
+            return gL, gS, MA
+
+        Z = S.Z
+        ex = dict(X=onp.asarray(REF), **EX_PAR, U=Z + 0.1, Up=Z - 0.2, Vp=Z + 0.3, A=Z, dt=0.1)
+        smp = lambda rng: [_rand_tri(rng)] + _params(rng) + [rng.normal(size=Z.shape) for _ in range(4)] + [rng.uniform(0.05, 1.0)]
+        c = Case(h, f, ex, sampler=smp, label='momentum_balance' + tag, validate=3 if not tag else 1)
+
+        def spec(i, o):
+            gL, gS, MA = o
+            rhs = add(gS, MA)
+            if split:   # one query per dof (P2: 1-4 s each; the monolithic disjunction needs 30-150 s)
+                return _box(i), [Eq(a, b, name='gradL_eq_gradSE_plus_M_Anew_dof%d' % k) for k, (a, b) in enumerate(zip(flat(gL), rhs))]
+            return _box(i), Eq(gL, rhs, name='gradL_eq_gradSE_plus_M_Anew')
+        c.prove('balance' + tag, spec, cap=cap, order=('core', 'nlsat'))
+    run(Setup(), '', 60, False)
+    if h.thorough():
+        run(Setup(degree=2), '_P2', 60, True)
+
+    # the separately coded element Hessian (stiffness/preconditioner path) is the Hessian of the same algorithmic energy
+    S = Setup()
+
+    def fh(X, E, nu, rho, beta, gamma, U, Up, dt):
         d = S.dyn(X, E, nu, rho, beta, gamma)
-        gL = jax.grad(d.compute_algorithmic_energy)(U, Up, S.state, dt)
-        gS = jax.grad(lambda u: d.compute_output_strain_energy(u, S.state, dt))(U)
-        Vn, An = d.correct(U - Up, Vp, A, dt)
-        MA = jax.grad(d.compute_output_kinetic_energy)(An)
-        return gL, gS, MA
-
-    ex = dict(X=onp.asarray(REF), **EX_PAR, U=Z32 + 0.1, Up=Z32 - 0.2, Vp=Z32 + 0.3, A=Z32, dt=0.1)
-    smp = lambda rng: [_rand_tri(rng)] + _params(rng) + [rng.normal(size=(3, 2)) for _ in range(4)] + [rng.uniform(0.05, 1.0)]
-    c = Case(h, f, ex, sampler=smp, label='momentum_balance')
-
-    def spec(i, o):
-        gL, gS, MA = o
-        return [_ne0(area2(i['X']))], Eq(gL, add(gS, MA), name='gradL_eq_gradSE_plus_M_Anew')
-    c.prove('balance', spec, cap=60, order=('core', 'nlsat'))
+        H = jax.hessian(lambda u: d.compute_algorithmic_energy(u, Up, S.state, dt))(U)
+        return H, d.compute_element_hessians(U, Up, S.state, dt)[0]
+    Z = S.Z
+    exh = dict(X=onp.asarray(REF), **EX_PAR, U=Z + 0.1, Up=Z - 0.2, dt=0.1)
+    smph = lambda rng: [_rand_tri(rng)] + _params(rng) + [rng.normal(size=Z.shape) for _ in range(2)] + [rng.uniform(0.05, 1.0)]
+    ch = Case(h, fh, exh, sampler=smph, label='element_hessian')
+    ch.prove('hessian', lambda i, o: (_box(i), Eq(o[1], o[0], name='element_hessian_is_hessian_of_algorithmic_energy')),
+             cap=60, order=('core', 'nlsat'))
 
 
 # =========================================================================================== O3
@@ -204,13 +261,13 @@ def o3(h):
     relational encoding of the element-map solve on the same terms, then used as an assumption in the other goals."""
     S = Setup()
     _encoded(h)
-    h.bounds('one P1 triangle with symbolic vertices (signed area != 0); E, nu, rho, beta, gamma, dt, translation a, velocity c, '
-             'fields U, Upred: all reals subject to nonzero denominators')
-    h.assume_note('O3: symbolic denominators nonzero (1+nu, 1-2nu, beta*dt^2), element Jacobian non-singular',
+    h.bounds('one P1 triangle with symbolic vertices; box: ' + BOX + '; translation a, velocity c, fields U, Upred: all reals')
+    h.assume_note('O3: symbolic denominators nonzero (1+nu, 1-2nu, beta*dt^2: implied by the box), element Jacobian non-singular',
                   'O3: goals other than the lemma assume the lemma "sum_a shapeGrads[q,a,:] = 0", itself discharged in the same obligation '
                   'on the same solver terms (cut-lemma chain, DESIGN section 4)')
-    h.outside('uniqueness of the minimiser (strict convexity of the algorithmic energy) for symbolic geometry; rigid rotation '
-              '(the linear strain measure is not rotation invariant)')
+    h.outside('uniqueness of the minimiser (strict convexity of the algorithmic energy; O4 gives KE positive definite, SE >= 0 is C08); '
+              'rigid rotation (the linear strain measure is not rotation invariant); P2 and higher: the tabulated reference gradients '
+              'sum to zero only to ~1e-16, so exact invariance is not an identity of the encoding there')
 
     def f(X, E, nu, rho, beta, gamma, a, c, dt):
         fs = S.fs(X)
@@ -227,7 +284,7 @@ def o3(h):
 
     def lemma_spec(i, o):
         G = o[-1][0]
-        return [_ne0(area2(i['X']))], Eq([v_sum([G[q, a, k] for a in range(3)]) for q in range(G.shape[0]) for k in range(2)], 0.0,
+        return _box(i), Eq([v_sum([G[q, a, k] for a in range(3)]) for q in range(G.shape[0]) for k in range(2)], 0.0,
                                          name='shape_gradients_sum_to_zero')
     c1.prove('lemma', lemma_spec, cap=40, order=('nlsat', 'core'))
 
@@ -235,7 +292,7 @@ def o3(h):
         a, c, dt = i['a'], i['c'], s0(i['dt'])
         Up, g, Vn, An, _ = o
         exact = [v_add(a[k], v_mul(dt, c[k])) for _ in range(3) for k in range(2)]
-        return [_ne0(area2(i['X']))], [
+        return _box(i), [
             Eq(Up, exact, name='predictor_is_exact_translation'),
             Eq(g, 0.0, name='predictor_is_stationary'),
             Eq(Vn, [c[k] for _ in range(3) for k in range(2)], name='velocity_unchanged'),
@@ -258,7 +315,7 @@ def o3(h):
 
     def spec2(i, o):
         g0, g1, l0, l1, _ = o
-        return [_ne0(area2(i['X']))], [
+        return _box(i), [
             Eq(g1, g0, name='gradSE_translation_invariant'),
             Eq(l1, l0, name='gradL_translation_invariant'),
             Eq([v_sum([g0[n, k] for n in range(3)]) for k in range(2)], 0.0, name='internal_forces_sum_to_zero'),
@@ -271,123 +328,212 @@ def o3(h):
 def o4(h):
     """compute_element_masses(): every component block sums to rho*area (within the ground partition-of-unity defect of
     the shape table, rel 1e-12), cross-component blocks vanish, M is symmetric, and it IS the mass implied by the kinetic
-    energy: grad KE(V) = M V and KE(V) = V.M.V/2 for all V — symbolic vertices and density"""
-    S = Setup()
+    energy: grad KE(V) = M V and KE(V) = V.M.V/2 for all V; KE(V) > 0 for V != 0 when the rule has enough points
+    — symbolic vertices and density"""
     _encoded(h)
-    h.bounds('one P1 triangle with symbolic vertices (any orientation, any area), rho, V: all reals; 3-point rule (quick) and 1-point rule (thorough)')
-    h.outside('element order > 1; spatially varying density (the code assumes homogeneous density)')
+    h.bounds('one triangle with symbolic vertices (signed area > 0), rho > 0, V: all reals; '
+             'P1 with the 3-point rule (quick); P1 with the 1-point rule, straight-sided P2 with the 3-point and 6-point rules (thorough)')
+    h.outside('element order > 2; spatially varying density (the code assumes homogeneous density); positive definiteness is not claimed for '
+              'under-integrated masses (P1/1-point, P2/3-point: singular by construction)')
 
-    def run(S, tag):
+    def run(S, tag, definite):
+        n = S.nn
+
         def f(X, rho, V):
             d = S.dyn(X, 1.0, 0.25, rho, 0.25, 0.5)
             M = d.compute_element_masses()[0]
             return M, jax.grad(d.compute_output_kinetic_energy)(V), d.compute_output_kinetic_energy(V)
-        ex = dict(X=onp.asarray(REF), rho=1.5, V=Z32 + 0.3)
-        smp = lambda rng: [_rand_tri(rng), rng.uniform(0.5, 2.0), rng.normal(size=(3, 2))]
-        c = Case(h, f, ex, sampler=smp, label='masses' + tag)
+        ex = dict(X=onp.asarray(REF), rho=1.5, V=S.Z + 0.3)
+        smp = lambda rng: [_rand_tri(rng), rng.uniform(0.5, 2.0), rng.normal(size=(n, 2))]
+        c = Case(h, f, ex, sampler=smp, label='masses' + tag, validate=3 if not tag else 1)
 
         def spec(i, o):
             M, gK, KE = o
             X, rho, V = i['X'], s0(i['rho']), i['V']
             ra = v_mul(rho, v_mul(0.5, area2(X)))
-            blocks = {(k, l): v_sum([M[a, k, b, l] for a in range(3) for b in range(3)]) for k in range(2) for l in range(2)}
-            MV = [v_sum([v_mul(M[a, k, b, l], V[b, l]) for b in range(3) for l in range(2)]) for a in range(3) for k in range(2)]
-            return [], [
+            blocks = {(k, l): v_sum([M[a, k, b, l] for a in range(n) for b in range(n)]) for k in range(2) for l in range(2)}
+            MV = [v_sum([v_mul(M[a, k, b, l], V[b, l]) for b in range(n) for l in range(2)]) for a in range(n) for k in range(2)]
+            idx = [(a, k, b, l) for a in range(n) for k in range(2) for b in range(n) for l in range(2)]
+            return _box(i), [
                 Le([v_abs(v_sub(blocks[0, 0], ra)), v_abs(v_sub(blocks[1, 1], ra))], v_mul(1e-12, v_abs(ra)), name='component_blocks_sum_to_rho_area', scale=ra),
                 Eq([blocks[0, 1], blocks[1, 0]], 0.0, name='cross_component_blocks_vanish'),
-                Eq([M[a, k, b, l] for a in range(3) for k in range(2) for b in range(3) for l in range(2)],
-                   [M[b, l, a, k] for a in range(3) for k in range(2) for b in range(3) for l in range(2)], name='symmetric'),
+                Eq([M[a, k, b, l] for a, k, b, l in idx], [M[b, l, a, k] for a, k, b, l in idx], name='symmetric'),
                 Eq(gK, MV, name='gradKE_is_M_V'),
                 Eq(v_mul(2.0, s0(KE)), v_sum([v_mul(x, y) for x, y in zip(flat(V), MV)]), name='KE_is_half_V_M_V'),
             ]
         c.prove('mass' + tag, spec, cap=60, order=('nlsat', 'core'))
-    run(S, '')
+        if definite:
+            def spec_pd(i, o):
+                nz = v_not(v_and(*[v_eq(x, 0.0) for x in flat(i['V'])]))
+                return _box(i) + [nz], [Holds(v_lt(0.0, s0(o[2])), name='kinetic_energy_positive_definite')]
+            c.prove('mass' + tag, spec_pd, cap=60, order=('nlsat', 'core'))
+    run(Setup(), '', True)
     if h.thorough():
-        run(Setup(qdeg=1), '_1pt')
+        run(Setup(qdeg=1), '_1pt', False)
+        run(Setup(degree=2), '_P2_3pt', False)
+        run(Setup(degree=2, qdeg=4), '_P2_6pt', True)
 
 
 # =========================================================================================== O5
-# essential-bc sets (node, component) leaving <= 3 free dofs on the single triangle
+# essential-bc sets (node, component) on the single triangle; 'free' = no constrained dof (6 free dofs)
 BCSETS = {
     'pin0_roller1y': [(0, 0), (0, 1), (1, 1)],
+    'free': [],
+    'all_y_fixed': [(0, 1), (1, 1), (2, 1)],
     'pin0_roller2x': [(0, 0), (0, 1), (2, 0)],
     'pin0_pin1': [(0, 0), (0, 1), (1, 0), (1, 1)],
-    'all_y_fixed': [(0, 1), (1, 1), (2, 1)],
     'roller1x_pin2': [(1, 0), (2, 0), (2, 1)],
 }
+NODESETS = {'n0': onp.array([0]), 'n1': onp.array([1]), 'n2': onp.array([2])}
 
 
-def _o5_case(h, S, tri, mat, bcs, label, sym_bc=False):
+def _dofs(S, bcs):
     _, FunctionSpace, _, _, _, _ = _mods()
-    E, nu, rho = MATERIALS[mat]
-    X = jnp.asarray(TRIANGLES[tri])
-    fs = S.fs(X, nodeSets={'n0': onp.array([0]), 'n1': onp.array([1]), 'n2': onp.array([2])})
-    d = S.dyn(X, E, nu, rho, 0.25, 0.5, fs=fs)
-    dm = FunctionSpace.DofManager(fs, 2, [FunctionSpace.EssentialBC(nodeSet='n%d' % n, component=k) for n, k in BCSETS[bcs]])
-    nu_, nb = dm.get_unknown_size(), dm.get_bc_size()
+    fs0 = S.fs(jnp.asarray(REF), nodeSets=NODESETS)
+    return FunctionSpace.DofManager(fs0, 2, [FunctionSpace.EssentialBC(nodeSet='n%d' % n, component=k) for n, k in BCSETS[bcs]])
 
-    def f(Uu, Vu, Au, Un, Ub, dt):
+
+def _step_fn(S, dm, fixed=None):
+    """one trapezoidal step written on the free dofs exactly as the repository's time stepper does (test_Newmark.time_step /
+    objective_function): returns start residual, gradient of the stepper's objective at the new displacement, the balance
+    residual at the new time, total energies before/after, new velocity. fixed=(X, E, nu, rho) closes over concrete values."""
+    def f(X, E, nu, rho, Uu, Vu, Au, Un, Ub, dt):
+        if fixed is not None:
+            X, E, nu, rho = fixed
+        fs = S.fs(X, nodeSets=NODESETS)
+        d = S.dyn(X, E, nu, rho, 0.25, 0.5, fs=fs)
         field = lambda w: dm.create_field(w, Ub)      # displacement: time-independent essential values Ub
         rate = lambda w: dm.create_field(w, 0.0)      # velocity / acceleration vanish on constrained dofs
         SE = lambda w: d.compute_output_strain_energy(field(w), S.state, dt)
         KE = lambda w: d.compute_output_kinetic_energy(rate(w))
         Up, Vp = d.predict(Uu, Vu, Au, dt)
-        # the objective of the time stepper (test_Newmark.objective_function): algorithmic energy as a function of the free dofs
         obj = lambda w: d.compute_algorithmic_energy(field(w), field(Up), S.state, dt)
         r1 = jax.grad(obj)(Un)
         Vn, An = d.correct(Un - Up, Vp, Au, dt)
         r0 = jax.grad(SE)(Uu) + jax.grad(KE)(Au)
         r1b = jax.grad(SE)(Un) + jax.grad(KE)(An)
-        return r0, r1, r1b, KE(Vu) + SE(Uu), KE(Vn) + SE(Un), KE(Vu), KE(Vn)
-
-    ex = dict(Uu=onp.full(nu_, 0.1), Vu=onp.full(nu_, -0.2), Au=onp.full(nu_, 0.3), Un=onp.full(nu_, 0.05), Ub=onp.zeros(nb), dt=0.1)
-    smp = lambda rng: [rng.normal(size=nu_), rng.normal(size=nu_), rng.normal(size=nu_), rng.normal(size=nu_),
-                       rng.normal(size=nb) if sym_bc else onp.zeros(nb), rng.uniform(0.05, 1.0)]
-    c = Case(h, f, ex, sampler=smp, label=label, validate=2)
-    return c, nu_, nb
+        return r0, r1, r1b, KE(Vu) + SE(Uu), KE(Vn) + SE(Un), Vn
+    return f
 
 
-def _o5_spec(sym_bc):
+def _step_args(dm, rng=None):
+    nu_, nb = dm.get_unknown_size(), dm.get_bc_size()
+    if rng is None:
+        return dict(X=onp.asarray(REF), E=1.0, nu=0.3, rho=1.5, Uu=onp.full(nu_, 0.1), Vu=onp.full(nu_, -0.2), Au=onp.full(nu_, 0.3),
+                    Un=onp.full(nu_, 0.05), Ub=onp.full(nb, 0.2), dt=0.1)
+    return [_rand_tri(rng)] + _params(rng)[:3] + [rng.normal(size=nu_) for _ in range(4)] + [rng.normal(size=nb), rng.uniform(0.05, 1.0)]
+
+
+def _work(i, o):
+    """dt/4 * (V + V') . (r0 + r1): the work of the two free-dof residuals over the step"""
+    r0, r1, r1b, E0, E1, Vn = o
+    return v_mul(v_mul(0.25, s0(i['dt'])), v_sum([v_mul(v_add(a, b), v_add(x, y)) for a, b, x, y in zip(flat(i['Vu']), flat(Vn), flat(r0), flat(r1))]))
+
+
+def _o5_identity(h, S, bcs, cap=90, tag=''):
+    dm = _dofs(S, bcs)
+    c = Case(h, _step_fn(S, dm), _step_args(dm), sampler=lambda rng: _step_args(dm, rng), label='step%s[%s]' % (tag, bcs), validate=2 if not tag else 1)
+
     def spec(i, o):
-        r0, r1, r1b, E0, E1, K0, K1 = o
-        dt = s0(i['dt'])
-        asm = [v_lt(0.0, dt)] + [v_eq(x, 0.0) for x in flat(r0)] + [v_eq(x, 0.0) for x in flat(r1)]
-        if not sym_bc:
-            asm += [v_eq(x, 0.0) for x in flat(i['Ub'])]
-        return asm, [Eq(s0(E1), s0(E0), name='energy_conserved', scale=v_add(1.0, v_abs(s0(E0))))]
-    return spec
+        r0, r1, r1b, E0, E1, Vn = o
+        scale = v_add(1.0, v_add(v_abs(s0(E0)), v_abs(s0(E1))))
+        return _box(i), [Eq(v_sub(s0(E1), s0(E0)), _work(i, o), name='energy_change_is_work_of_free_dof_residuals', scale=scale)]
+    c.prove('identity%s[%s]' % (tag, bcs), spec, cap=cap, order=('core', 'nlsat'))
+    if BCSETS[bcs] and not tag:
+        # with no constrained dof this is O2 itself (re-parametrised through the predictor: 17 s instead of 0.5 s), not repeated here
+        c.prove('balance[%s]' % bcs, lambda i, o: (_box(i), [Eq(o[1], o[2], name='objective_gradient_is_free_dof_balance_at_new_time')]),
+                cap=cap, order=('nlsat', 'core'))
+    return dm
 
 
-def _o5_run(h, S, tri, mat, bcs, sym_bc=False, cap=60):
-    label = '%s/%s/%s%s' % (tri, mat, bcs, '/symUbc' if sym_bc else '')
-    c, nu_, nb = _o5_case(h, S, tri, mat, bcs, label, sym_bc)
-    order = ('eqnlsat', 'nlsat', 'core')
-    c.prove('conserve[%s]' % label, _o5_spec(sym_bc), cap=cap, order=order)
-    return c
+def _o5_corollary(h, bcs, n):
+    """definition-dropped last link of the chain: from the identity (as proved on the real code's terms) and zero free-dof
+    residuals at both ends, the energies are equal. Pure scalar logic over fresh reals standing for the code's terms."""
+    import z3
+    e0, e1, dt = z3.Real('E_old'), z3.Real('E_new'), z3.Real('dt')
+    s = [z3.Real('VplusVnew_%d' % k) for k in range(n)]
+    a = [z3.Real('r_old_%d' % k) for k in range(n)]
+    b = [z3.Real('r_new_%d' % k) for k in range(n)]
+    lemma = (e1 - e0) == sym.rat(0.25) * dt * z3.Sum([s[k] * (a[k] + b[k]) for k in range(n)]) if n else (e1 - e0) == 0
+    assumes = [lemma, dt > 0] + [x == 0 for x in a] + [x == 0 for x in b]
+    h.prove('conservation_from_identity[%s]' % bcs, assumes, Eq(e1, e0, name='energy_conserved'), inputs=dict(E_old=e0, E_new=e1, dt=dt),
+            concrete=None, cap=20, order=('core', 'nlsat'),
+            note='cut-lemma chain: identity[%s] proved on the real terms; here the definitions are dropped' % bcs)
 
 
-@obligation(P, 'O5.trapezoidal_energy_conservation', cap=300)
+def _o5_witness(h, S, tri, mat, bcs):
+    """reachability of the hypotheses on the real code: a solver model of 'balance on the free dofs at both ends, dt > 0,
+    non-trivial energy and motion' for a concrete triangle/material, replayed on the real jitted functions"""
+    E, nu, rho = MATERIALS[mat]
+    dm = _dofs(S, bcs)
+    f = _step_fn(S, dm, fixed=(jnp.asarray(TRIANGLES[tri]), E, nu, rho))
+    ex = _step_args(dm)
+    ex['Ub'] = onp.zeros(dm.get_bc_size())
+    c = Case(h, f, ex, validate=0, label='witness')
+    i, (r0, r1, r1b, E0, E1, Vn) = c.inp, c.out
+    hyp = [sym.toz(x) == 0 for x in flat(r0)] + [sym.toz(x) == 0 for x in flat(r1)] + [sym.toz(x) == 0 for x in flat(i['Ub'])]
+    hyp += [s0(i['dt']) > 0, sym.toz(s0(E0)) >= 1, sym.toz(i['Un'][0]) - sym.toz(i['Uu'][0]) >= sym.rat(0.125), sym.toz(i['Vu'][0]) >= sym.rat(0.5)]
+    hyp += [sym.toz(x) == sym.toz(y) for x, y in zip(flat(i['X']), flat(onp.asarray(REF)))]
+    hyp += [s0(i['E']) == 1, s0(i['nu']) == 0, s0(i['rho']) == 1]      # unused inputs (closed over): pinned to keep the model small
+    name = 'hypotheses_reachable[%s/%s/%s]' % (tri, mat, bcs)
+
+    def on_real(vals):
+        R0, R1, R1b, e0, e1, _ = c.real(vals)
+        res = float(max(onp.abs(R0).max(), onp.abs(R1).max()))
+        hyp_ok = res <= 1e-9 * (1.0 + abs(float(e0))) and float(e0) >= 1 - 1e-9 and vals['dt'][0] > 0
+        conserved = abs(float(e1) - float(e0)) <= 1e-9 * abs(float(e0))
+        return hyp_ok, conserved, 'solver model (dt=%.4g, E_old=%.6g) on the real code: max free-dof residual %.2e, E_new-E_old=%.2e' % (
+            vals['dt'][0], float(e0), res, float(e1) - float(e0))
+
+    if h.replay is not None:
+        if h.replay.get('query') == '%s/%s' % (h.ob, name):
+            hyp_ok, conserved, detail = on_real(h.replay['inputs'])
+            h.replay_result = dict(status='violated' if (hyp_ok and not conserved) else 'unreproduced', detail=detail)
+        return
+    st, m, sv, dt_, att = sym.solve(hyp + c.side(True), 30, order=('nlsat', 'core'))
+    if st != 'sat':
+        h.fact(name, False, 'solver returned %s for the hypotheses of the conservation claim' % st)
+        return
+    vals = {k: [float(sym.model_value(m, x)) for x in v.reshape(-1)] for k, v in i.items()}
+    hyp_ok, conserved, detail = on_real(vals)
+    if hyp_ok and not conserved:
+        # the real code satisfies the hypotheses at this state and does not conserve energy: the property itself is violated
+        h.violation(name, vals, 'balance holds on the free dofs at both ends but energy is not conserved: ' + detail)
+    else:
+        h.fact(name, hyp_ok and conserved, detail)
+
+
+@obligation(P, 'O5.trapezoidal_energy_conservation', cap=900)
 def o5(h):
-    """beta=1/4, gamma=1/2, linear elastic, no loads: KE(V')+SE(U') = KE(V)+SE(U) for every dt>0 and every state, whenever the
-    balance of momentum holds ON THE FREE DOFS at both ends (start: grad SE + M A = 0; end: stationarity of the stepper's
-    objective); constrained dofs carry time-independent displacement and zero velocity/acceleration"""
+    """beta=1/4, gamma=1/2, linear elastic, no loads. Chain: (identity, on the real code, everything symbolic)
+    [KE(V')+SE(U')] - [KE(V)+SE(U)] = dt/4 (V+V').(r_old + r_new) with r_old = [grad SE(U) + M A] and r_new = gradient of the
+    stepper's objective at U', both ON THE FREE DOFS ONLY; (corollary) both residuals zero => energy conserved, for every dt>0.
+    Constrained dofs carry time-independent displacement and zero velocity/acceleration."""
     S = Setup()
     _encoded(h)
     _, FunctionSpace, _, _, _, _ = _mods()
     h.encoded(FunctionSpace.DofManager.create_field)
-    h.bounds('one P1 triangle, concrete vertices: %s; concrete (E, nu, rho): %s; essential-bc sets leaving <= 3 free dofs: %s; '
-             'free-dof state Uu, Vu, Au, new displacement Un: all reals; dt: all reals > 0'
-             % (sorted(TRIANGLES), sorted(MATERIALS.values()), sorted(BCSETS)))
-    h.outside('symbolic moduli or geometry and > 3 free dofs for the conservation identity (probe: unknown at 300 s); conservation over long '
-              'histories follows by induction over this one-step identity (variable dt covered: dt is a free variable); external loads; '
-              'time-dependent essential boundary values')
-    h.assume_note('O5: stationarity / balance imposed on the free dofs only; essential values zero (quick) or arbitrary time-independent (thorough)')
-    combos = [(t, m, 'pin0_roller1y') for t in TRIANGLES for m in MATERIALS]
-    combos += [('skew', 'E1_nu0.25_rho2', 'pin0_pin1'), ('obtuse', 'E3.5_nu0.375_rho0.5', 'all_y_fixed')]
+    sets = ['pin0_roller1y', 'free', 'all_y_fixed'] if not h.thorough() else list(BCSETS)
+    h.bounds('one P1 triangle with SYMBOLIC vertices, symbolic E, nu, rho, dt (box: ' + BOX + '), free-dof state '
+             'Uu, Vu, Au, new displacement Un, time-independent essential values Ub: all reals; essential-bc sets: %s (0 to 6 free dofs); thorough: also one straight-sided P2 triangle (9 and 12 free dofs); '
+             'reachability witnesses of the hypotheses on concrete triangles %s x materials (E,nu,rho) %s'
+             % (sets, sorted(TRIANGLES), sorted(MATERIALS.values())))
+    h.outside('conservation over long histories follows by induction over this one-step identity (variable dt covered: dt is a free '
+              'variable); external loads; time-dependent essential boundary values; more than one element; nonlinear materials; '
+              'beta, gamma other than 1/4, 1/2')
+    h.assume_note('O5: stationarity / balance imposed on the free dofs only',
+                  'O5: the corollary query reasons over fresh scalars standing for the code terms of the identity (definitions dropped: sound, '
+                  'DESIGN section 4 cut-lemma chain)')
+    for b in sets:
+        dm = _o5_identity(h, S, b)
+        _o5_corollary(h, b, dm.get_unknown_size())
     if h.thorough():
-        combos = [(t, m, b) for t in TRIANGLES for m in MATERIALS for b in BCSETS]
-    for t, m, b in combos:
-        _o5_run(h, S, t, m, b)
+        S2 = Setup(degree=2)
+        for b in ['pin0_roller1y', 'free']:
+            dm = _o5_identity(h, S2, b, tag='_P2')
+            _o5_corollary(h, 'P2/' + b, dm.get_unknown_size())
+    wit = [('ref', 'E10_nu0_rho1', 'pin0_roller1y'), ('skew', 'E1_nu0.25_rho2', 'pin0_roller1y'), ('obtuse', 'E3.5_nu0.375_rho0.5', 'all_y_fixed')]
     if h.thorough():
-        for t, m, b in [('skew', 'E1_nu0.25_rho2', 'pin0_roller1y'), ('obtuse', 'E3.5_nu0.375_rho0.5', 'roller1x_pin2'), ('ref', 'E10_nu0_rho1', 'pin0_pin1')]:
-            _o5_run(h, S, t, m, b, sym_bc=True)
+        wit = [(t, m, 'pin0_roller1y') for t in TRIANGLES for m in MATERIALS] + [('obtuse', 'E3.5_nu0.375_rho0.5', 'all_y_fixed'), ('skew', 'E1_nu0.25_rho2', 'pin0_pin1')]
+    for t, m, b in wit:
+        _o5_witness(h, S, t, m, b)
